@@ -6,7 +6,8 @@ EmitOps == PrintT("@@EMIT@@" \o ToJson([ops |-> ops, init |-> [k \in 1..Len(objs
 ShapeTable == {[shape |-> s, accept |-> Accept(s), silent |-> Silent(s)] : s \in {x \in Shapes : Consistent(x)}}
 VariantTable == {[v |-> v, accept |-> AcceptExpand(v)] : v \in {x \in Variants : VConsistent(x)}}
 EmitTables == (ops = <<>> /\ Len(objs[1]) = 1 /\ objs[1][1].form = "D") =>
-                 PrintT("@@EMIT@@" \o ToJson([shapes |-> ShapeTable, variants |-> VariantTable]))
+                 PrintT("@@EMIT@@" \o ToJson([shapes |-> ShapeTable, variants |-> VariantTable, merges |-> MergeCases]))
+ASSUME FirstWins
 \* Each non-accepted shape violates at least one clause; each accepted one none (rule set is total and exclusive)
 RuleTotal == \A s \in Shapes : Consistent(s) => (Accept(s) \/ ~Accept(s))
 ====
